@@ -48,6 +48,12 @@ def gen_cases(tier):
                 yield {"part": "log", "gate": g, "eq": False, "operands": [a]}
                 for b in range(4):
                     yield {"part": "log", "gate": g, "eq": True, "operands": [a, b]}
+        # the symbol as a weight INSIDE the objective and the constraint polynomial (explicit bounds; coefficients chosen so
+        # that no special-form recogniser can tell the symbolic from the numeric build)
+        for spin in (False, True):
+            for rel in cs.RELS:
+                for lt in (True, False):
+                    yield {"part": "inner", "spin": spin, "rel": rel, "log_trick": lt}
         for D in gen.polys(4, 1 if quick else 2, (-3, 1, 2), minterms=1, need_deg=3):
             for typ in ("PUBO", "PUSO", "PCBO", "PCSO"):
                 yield {"part": "red", "type": typ, "poly": rp.jdict(D)}
@@ -185,6 +191,21 @@ def check(case, st):
                         return H
                     compare(st, case, "%s.add_constraint_%s_zero(%s, lam, log_trick=%s, bounds=%s)" % (Model.__name__, rel, D, lt, bk),
                             build, "%s.%s|log_trick=%s|bounds=%s" % (Model.__name__, rel, lt, bk))
+    elif part == "inner":
+        spin = case["spin"]
+        Model = qv.PCSO if spin else qv.PCBO
+        rel, lt = case["rel"], case["log_trick"]
+        st.nontrivial += 1
+
+        def build(w):
+            H = Model({("a",): w, ("a", "b"): -2, (): 1})
+            kw = {"lam": 2, "bounds": (-9, 9), "suppress_warnings": True}
+            if rel != "eq":
+                kw["log_trick"] = lt
+            getattr(H, "add_constraint_%s_zero" % rel)({("a",): w, ("b",): -2, ("c",): 3, (): -1}, **kw)
+            return H
+        compare(st, case, "%s with the symbol as coefficient of the objective and of the %s-constraint polynomial (bounds given)" % (Model.__name__, rel),
+                build, "%s.%s|symbol-in-polynomial|log_trick=%s" % (Model.__name__, rel, lt))
     elif part == "log":
         labels = gen.labels_for("str", 4)
         meth = "add_constraint_%s%s" % ("eq_" if case["eq"] else "", case["gate"])
@@ -210,6 +231,7 @@ def check(case, st):
 def run(ctx):
     ctx.bounds = {"substituted_values": CS, "comparison": "polys over 3 variables, <=%s terms, coefs %s, offsets %s, 6 relations, log_trick both, bounds omitted/exact, PCBO and PCSO"
                   % ("1 (+ two-term over {-1,2})" if ctx.quick else 2, cs.COEFS, cs.OFFSETS),
+                  "symbol_inside_polynomial": "one objective + constraint polynomial with the symbol as a coefficient, 6 relations x log_trick, PCBO and PCSO (goes beyond the statement, which speaks of weights)",
                   "logical": "16 methods, label operands from 4 labels with repetition, arity <= 3",
                   "reduction": "models over 4 variables with %s terms (one of degree >= 3) over {-3,1,2}; PUBO/PUSO/PCBO/PCSO; to_qubo, to_quso, to_pubo(2), to_puso(2)" % ("1" if ctx.quick else "<=2")}
     ctx.rule = "case = one constraint polynomial / one logical call / one reducible model; every method and option inside, each with 3 substituted values; non-trivial = not a constant polynomial"
